@@ -72,12 +72,16 @@ Clauses(r) ==
                  Cl("convolver-of-same-kernel", r.outc = MaskedBlurOfNative(u, r.k, r.h, r.w, r.kh, r.kw, r.img)),
                  Cl("whole-frame-agrees-with-convolver-on-mask", r.outm = r.outc) >>
       [] r.api = "simfit" ->
-           \* SimulatorImaging (noise off) -> apply_mask -> convolver with the generating image
-           << Cl("on-lattice", OnLattice1(r.data) /\ OnLattice1(r.model)),
-              Cl("simulated-data-is-whole-frame-convolution",
-                 r.data = WholeFrameOn(r.img, r.k, r.h, r.w, r.kh, r.kw, SlimSeq(u, r.h, r.w))),
-              Cl("model-is-masked-blur", r.model = MaskedBlurOfNative(u, r.k, r.h, r.w, r.kh, r.kw, r.img)),
-              Cl("residual-zero", r.resid_zero /\ r.data = r.model) >>
+           \* SimulatorImaging (add_poisson_noise_to_data = False; background sky r.sky in data units, subtracted
+           \* again iff r.subtract; any PSF normalisation / noise-map option) -> apply_mask -> convolver with the
+           \* generating image.  The data contain the convolved image plus the sky that was declared left in.
+           LET left == IF r.subtract THEN 0 ELSE r.sky
+               conv == WholeFrameOn(r.img, r.k, r.h, r.w, r.kh, r.kw, SlimSeq(u, r.h, r.w))
+           IN << Cl("on-lattice", OnLattice1(r.data) /\ OnLattice1(r.model)),
+                 Cl("simulated-data-is-whole-frame-convolution-plus-sky-left-in",
+                    r.data = [n \in DOMAIN conv |-> conv[n] + left]),
+                 Cl("model-is-masked-blur", r.model = MaskedBlurOfNative(u, r.k, r.h, r.w, r.kh, r.kw, r.img)),
+                 Cl("residual-zero", r.resid_zero /\ [n \in DOMAIN r.data |-> r.data[n] - left] = r.model) >>
       [] OTHER -> << Cl("unknown-api", FALSE) >>
 
 Want(r) ==
@@ -90,7 +94,7 @@ Want(r) ==
       [] r.api = "image" -> [out |-> MaskedBlurOfNative(u, r.k, r.h, r.w, r.kh, r.kw, r.img)]
       [] r.api = "matrix" -> IF IsMatrix(r.m, Cardinality(u)) THEN [out |-> ExpectedMatrix(r)] ELSE << "malformed" >>
       [] r.api = "whole_frame" -> [out |-> WholeFrame(r.img, r.k, r.h, r.w, r.kh, r.kw)]
-      [] r.api = "simfit" -> [data |-> WholeFrameOn(r.img, r.k, r.h, r.w, r.kh, r.kw, SlimSeq(u, r.h, r.w))]
+      [] r.api = "simfit" -> [data_less_sky_left_in |-> WholeFrameOn(r.img, r.k, r.h, r.w, r.kh, r.kw, SlimSeq(u, r.h, r.w))]
       [] OTHER -> << >>
 
 \* Signature of the failing input class (matches known findings).  The one class singled out: a mapping matrix
@@ -106,13 +110,14 @@ Sig(r) ==
     ELSE IF r.api = "even" THEN "even_kernel"
     ELSE IF r.err # "" THEN r.api \o ":raised"
     ELSE IF r.api \in {"whole_frame", "simfit"} /\ r.history # "fresh" THEN r.api \o ":derived-kernel"
+    ELSE IF r.api = "simfit" /\ r.sky # 0 THEN "simfit:background-sky"
     ELSE r.api
 
 Failed(r) == SelectSeq(Clauses(r), LAMBDA c : ~ c.ok)
 
 TraceInit == /\ i = 1
-             /\ shape = <<1, 1>> /\ ks = <<1, 1>> /\ variant = "pos" /\ U = {} /\ phase = "trace"
-             /\ frames = << >> /\ op = << >>
+             /\ shape = <<1, 1>> /\ ks = <<1, 1>> /\ variant = "pos" /\ kern = <<1>> /\ simopt = NoSim /\ U = {}
+             /\ phase = "trace" /\ frames = << >> /\ op = << >> /\ sim = << >>
 
 TraceNext ==
     /\ i <= Len(Trace)
